@@ -578,6 +578,23 @@ func TestC08(t *testing.T) {
 			run.Sample(sc)
 		}
 	}
+	for i := 0; i < run.Pick(6, 200); i++ {
+		variant := []string{"overlapping-leaves", "update-in-alive-delegate"}[i%2]
+		id := fmt.Sprintf("real/%s/%d", variant, i)
+		if !run.Mine(i) || !run.Want(id) {
+			continue
+		}
+		run.Journal(id, "")
+		res, inc := runC08Overlap(run, i, variant)
+		run.Eval(1)
+		if inc != "" {
+			run.Note("real-time scenario %s inconclusive: %s", id, inc)
+			run.Count("real_inconclusive", 1)
+		}
+		for _, r := range res {
+			run.Violation(id, r.Key, r.What, map[string]any{"variant": variant})
+		}
+	}
 	if !run.Replaying() {
 		for _, k := range []string{"suspect", "dead"} {
 			for _, r := range []int{-1, 0, 1} {
@@ -585,6 +602,7 @@ func TestC08(t *testing.T) {
 			}
 		}
 		run.Require("leave|update-in-flight")
+		run.Require("real|overlapping-leaves", "real|update-in-alive-delegate")
 	}
 	run.Complete()
 	if run.Violations() > 0 {
